@@ -5,6 +5,7 @@
 package compiler
 
 import (
+	"bytes"
 	"errors"
 	"fmt"
 	"strings"
@@ -295,11 +296,21 @@ func ParseTemplateSource(src []byte, format ast.Format, imported, noParseShow bo
 			text = ast.NewText(tok.pos, tok.txt, ast.Cut{})
 		}
 
-		if line < tok.lin || tok.typ == tokenText && tok.pos.End == lastIndex {
+		// typ and start are the type and the start of the token.
+		typ, start := tok.typ, tok.pos.Start
+
+		// lin is the line of the token, or the line in which it ends if it
+		// is a text.
+		lin := tok.lin
+		if typ != tokenText {
+			lin = tok.pos.Line
+		}
+
+		if line < lin || tok.typ == tokenText && tok.pos.End == lastIndex {
 			if p.cutSpacesToken && numTokenInLine == 1 {
 				cutSpaces(firstText, text)
 			}
-			line = tok.lin
+			line = lin
 			firstText = text
 			p.cutSpacesToken = false
 			numTokenInLine = 0
@@ -416,6 +427,13 @@ func ParseTemplateSource(src []byte, format ast.Format, imported, noParseShow bo
 		default:
 			return nil, nil, syntaxError(tok.pos, "unexpected %s", tok)
 
+		}
+
+		// If a show, a statement or a comment ends in a line following the
+		// one in which it starts, that line is the current line.
+		switch typ {
+		case tokenStartStatement, tokenStartStatements, tokenLeftBraces, tokenComment:
+			line += bytes.Count(src[start:tok.pos.Start], []byte{'\n'})
 		}
 
 	}
